@@ -342,20 +342,29 @@ func (c *Ctx) validatedConcat(fn *ssa.Function, v ssa.Value, ext string, retBloc
 			if pred == nil || !isModulePkg(pred.Pkg()) {
 				continue
 			}
-			ld, ok := call.Common().Args[0].(*ssa.UnOp)
-			if !ok {
-				continue
+			// the element: ([]byte(val))[i] (range over the converted slice) or val[i] (indexing the string)
+			var seq, index ssa.Value
+			switch a := call.Common().Args[0].(type) {
+			case *ssa.UnOp:
+				if ia, ok := a.X.(*ssa.IndexAddr); ok && a.Op == token.MUL {
+					if conv, ok := ia.X.(*ssa.Convert); ok && conv.X == val {
+						seq, index = conv, ia.Index
+					}
+				}
+			case *ssa.Index:
+				if _, isStr := a.X.Type().Underlying().(*types.Basic); isStr && a.X == val {
+					seq, index = val, a.Index
+				}
+			case *ssa.Lookup:
+				if _, isStr := a.X.Type().Underlying().(*types.Basic); isStr && a.X == val && !a.CommaOk {
+					seq, index = val, a.Index
+				}
 			}
-			ia, ok := ld.X.(*ssa.IndexAddr)
-			if !ok {
-				continue
-			}
-			conv, ok := ia.X.(*ssa.Convert)
-			if !ok || conv.X != val {
+			if seq == nil {
 				continue
 			}
 			// full range?
-			hdr, ok := fullRangeIndex(ia.Index, conv)
+			hdr, ok := fullRangeIndex(index, seq)
 			if !ok {
 				return false, "the validating loop does not visit every byte of the name (index is not a full 0..len-1 range)"
 			}
